@@ -98,16 +98,17 @@ CLAIMED = {
             'Theorem for every table of valid symbols; representation independence is structural in the model and decided by '
             'the oracle comparing all queries across the three representations.',
             'Aliases with parentheses / non-text aliases are outside this property.', 'DESIGN.md section 4 C14'),
-    'C05': ('Coq proof (partial): the token sequence of render / render_as_readable of any well-formed expression is parsed back to it; '
-            'its token types are exactly the items render writes and any token list with these types parses back; the rendered string '
-            'is the concatenation of fixed operator / parenthesis texts and the template applied to each license; the words of the '
-            'rendered string are the words of its items - the step from these words to the tokens under a table by correspondence; '
-            'producer results rendered and re-parsed on the implementation',
-            'Theorems for every well-formed expression tree and every template (render_tokens_roundtrip, bparse_kinds, kinds_to_or, '
-            'render_is_items, resplit, render_words); the step from the words of the rendered text to its tokens (each key recognised '
-            'again under an operator-word-free table) is reduced to a segmentation by parse_blocks and decided by the oracle on results '
-            'of parse, simplify, dedup and combine_expressions.',
-            'Partial proof, see Props/C05.v header.', 'DESIGN.md section 4 C05'),
+    'C05': ('Coq proof: over a table none of whose names has an operator word or parenthesis, the default rendering (plain or readable) '
+            'of every well-formed expression with renderable licenses is tokenized and parsed back to the expression itself by the model '
+            'of the whole pipeline (render_parse_roundtrip); the token sequence of the rendering parses back whatever strings / positions '
+            'it carries; the rendered string is the concatenation of fixed operator / parenthesis texts and the template applied to each '
+            'license; producer results (parse, simplify, dedup, combine_expressions) rendered and re-parsed on the implementation',
+            'Theorems for every well-formed expression tree, every operator-word-free table and every template (render_parse_roundtrip, '
+            'render_tokens_roundtrip, bparse_kinds, kinds_to_or, render_is_items, resplit, render_words). The premise that the licenses of '
+            'the expression are renderable (known licenses stored under their own key, no stored name inside an unknown key) is '
+            'instantiated in C05_example and decided for results of parse on the implementation by the oracle.',
+            'Four finite oracle facts about white space and lower-casing of the operator letters are premises (checked on the interpreter).',
+            'DESIGN.md section 4 C05'),
     'C19': ('Coq proof (invariant over operation sequences: answers of any history equal those of the system that never caches a '
             'tokenizer; the store of expression objects is append-only; parse of an expression returns the same object) + random '
             'histories on real shared objects against the model and against fresh instances',
